@@ -123,6 +123,8 @@ let dump_env id k ret exn (v : ienv) =
 let run_cmds id (c : cfg) (v0 : ienv) (cmds : string) =
   let v = ref v0 in
   let k = ref 0 in
+  (* mirrors Instance::exception_string: reset by step (and by the harness before c / e), kept otherwise *)
+  let last_exn = ref "-" in
   (try
     List.iter (fun cmd ->
       incr k;
@@ -131,16 +133,17 @@ let run_cmds id (c : cfg) (v0 : ienv) (cmds : string) =
         v := v1;
         match r with
         | StepRefused -> Printf.printf "R %s #%d atend\n" id !k
-        | StepOk -> dump_env id !k 1 "-" v1
-        | StepFail -> dump_env id !k 0 "-" v1
-        | StepExn x -> dump_env id !k 0 (exn_name x) v1
+        | StepOk -> last_exn := "-"; dump_env id !k 1 "-" v1
+        | StepFail -> last_exn := "-"; dump_env id !k 0 "-" v1
+        | StepExn x -> last_exn := exn_name x; dump_env id !k 0 (exn_name x) v1
         | StepCrash x -> Printf.printf "R %s #%d CRASH why=%s\n" id !k (string_of_z x); raise Exit
       end else if cmd = "r" then begin
         if at_start !v then Printf.printf "R %s #%d atstart\n" id !k
         else match dbg_rewind !v with
-          | None -> dump_env id !k 0 "-" !v
-          | Some v1 -> v := v1; dump_env id !k 1 "-" v1
+          | None -> dump_env id !k 0 !last_exn !v
+          | Some v1 -> v := v1; dump_env id !k 1 !last_exn v1
       end else if cmd = "c" then begin
+        last_exn := "-";
         let (v1, st) = dbg_continue low_s_strict no_tweak sha256 (continue_fuel !v) c !v in
         v := v1;
         match st with
@@ -150,6 +153,7 @@ let run_cmds id (c : cfg) (v0 : ienv) (cmds : string) =
         | SCrash x -> Printf.printf "R %s #%d CRASH why=%s\n" id !k (string_of_z x); raise Exit
       end else if String.length cmd > 2 && String.sub cmd 0 2 = "e:" then begin
         let toks = List.map (fun t -> ascii (unhexstr t)) (split '+' (String.sub cmd 2 (String.length cmd - 2))) in
+        last_exn := "-";
         match exec_compile toks [] with
         | None -> dump_env id !k 0 "-" !v
         | Some scr ->
@@ -158,7 +162,7 @@ let run_cmds id (c : cfg) (v0 : ienv) (cmds : string) =
           match st with
           | SOk -> dump_env id !k 1 "-" v1
           | SErr -> dump_env id !k 0 "-" v1
-          | SExn x -> Printf.printf "R %s #%d uncaught=%s\n" id !k (exn_name x); raise Exit
+          | SExn x -> dump_env id !k 0 "-" v1
           | SCrash x -> Printf.printf "R %s #%d CRASH why=%s\n" id !k (string_of_z x); raise Exit
       end else Printf.printf "R %s #%d badcmd\n" id !k)
       (split ',' cmds)
